@@ -151,6 +151,9 @@ impl<V: Hash, S> Hash for HashableHashSet<V, S> {
                 inner_hasher.finish()
             }));
             buffer.sort_unstable();
+            // The length delimits this collection from whatever is hashed next to it. Without
+            // it `({1}, {})` and `({}, {1})` would feed the same bytes to the hasher.
+            hasher.write_usize(buffer.len());
             for v in &*buffer {
                 hasher.write_u64(*v);
             }
@@ -366,6 +369,8 @@ impl<K: Hash, V: Hash, S> Hash for HashableHashMap<K, V, S> {
                 inner_hasher.finish()
             }));
             buffer.sort_unstable();
+            // The length delimits this collection from whatever is hashed next to it.
+            state.write_usize(buffer.len());
             for hash in &*buffer {
                 state.write_u64(*hash);
             }
